@@ -55,7 +55,8 @@
 EXTENDS Integers, Sequences, FiniteSets, TLC, SequencesExt
 CONSTANTS Threads, MaxLoads, Dev,
           FlagSets,     \* the flag words tried: subsets of {"TSYNC","LOG","BAD"}
-          Pols,         \* subset of {"valid","invalid","oversize"}
+          Pols,         \* subset of {"valid","invalid","oversize","allowall"} (allowall: a valid policy that denies nothing;
+                        \* to the kernel and to LoadFilter it is a filter like any other)
           EnvAnywhere,  \* TRUE: environment steps at every pc; FALSE: only
                         \* where a replay can stage them (idle, schedule point)
           Creators,     \* threads that may create threads (the replay harness
@@ -265,7 +266,7 @@ NoTsyncLeavesOthers ==
 
 \* C11
 NNPRequestedLoads ==
-  (AtRet /\ req.nnp /\ req.pol = "valid" /\ "BAD" \notin req.flags /\ ~Denied(m) /\ kret.t # "none" /\ kret.ret = 0 /\ ~strict[kret.t] /\ ~Blocked(kret.t)) => res = "nil"
+  (AtRet /\ req.nnp /\ req.pol \in {"valid", "allowall"} /\ "BAD" \notin req.flags /\ ~Denied(m) /\ kret.t # "none" /\ kret.ret = 0 /\ ~strict[kret.t] /\ ~Blocked(kret.t)) => res = "nil"
 \* a requested bit that cannot be set stops the load before the kernel sees a filter
 PrctlFailureStopsLoad ==
   (AtRet /\ req.nnp /\ req.pol # "invalid" /\ Denied(m) /\ locked) => (res = "err" /\ kret.t = "none")
